@@ -15,13 +15,6 @@ Local Open Scope Z_scope.
 (* Generic helpers                                                                             *)
 (* ------------------------------------------------------------------------------------------ *)
 
-(* evaluate comparisons of constant keys *)
-Ltac keq :=
-  repeat match goal with
-         | |- context [str_eqb (k ?a) (k ?b)] =>
-             let v := eval vm_compute in (str_eqb (k a) (k b)) in change (str_eqb (k a) (k b)) with v
-         end.
-
 Lemma sj_mapv_cons {A B} (g : A -> B) kv l : mapv g (kv :: l) = (fst kv, g (snd kv)) :: mapv g l.
 Proof. reflexivity. Qed.
 
@@ -162,7 +155,7 @@ End XtyInd.
 (* ------------------------------------------------------------------------------------------ *)
 (* Type objects                                                                                *)
 (* ------------------------------------------------------------------------------------------ *)
-Notation rattr := (rawty * option bool * annots)%type.
+Local Notation rattr := (rawty * option bool * annots)%type.
 Definition reqj (req : option bool) : list (str * json) := match req with Some b => [(k "required", JBool b)] | None => [] end.
 Definition annots_json (an : annots) : option json :=
   if is_nil an then None else Some (JObj (mapv JStr (rec_of_list an))).
@@ -367,7 +360,7 @@ Qed.
 (* ------------------------------------------------------------------------------------------ *)
 (* Well-formed types; raw_of_type / type_of_raw                                                *)
 (* ------------------------------------------------------------------------------------------ *)
-Notation xattr := (xty * bool * annots)%type.
+Local Notation xattr := (xty * bool * annots)%type.
 
 Fixpoint wf_ty (t : xty) : bool :=
   match t with
@@ -1306,3 +1299,326 @@ Proof.
   apply dbind_nofuel; [|discriminate]. apply dall_map_nofuel. intros kv _.
   apply dbind_nofuel; [apply dec_ns_nofuel|discriminate].
 Qed.
+
+(* ------------------------------------------------------------------------------------------ *)
+(* Part 3: resolution does not see the difference                                              *)
+(* ------------------------------------------------------------------------------------------ *)
+(* the same normalisation on what the resolver reads *)
+Definition sort_parents (e : s_entity) : s_entity :=
+  {| se_name := se_name e; se_parents := sort_strs (se_parents e); se_shape := se_shape e; se_tags := se_tags e |}.
+Definition norm_s_ns (ns : s_ns) : s_ns :=
+  {| sn_name := sn_name ns; sn_entities := map sort_parents (sn_entities ns); sn_enums := sn_enums ns;
+     sn_commons := sn_commons ns; sn_actions := sn_actions ns |}.
+Definition s_keep (ns : s_ns) : bool :=
+  negb (is_nil (sn_name ns)) || negb (is_nil (sn_entities ns) && is_nil (sn_enums ns) && is_nil (sn_actions ns) && is_nil (sn_commons ns)).
+Definition norm_s (S : s_schema) : s_schema := map norm_s_ns (filter s_keep S).
+
+Lemma sj_filter_map {A B} (p : B -> bool) (g : A -> B) l : filter p (map g l) = map g (filter (fun x => p (g x)) l).
+Proof. induction l as [|x l IH]; [reflexivity|]. cbn [map filter]. rewrite IH. destruct (p (g x)); reflexivity. Qed.
+
+Lemma is_nil_map {A B} (g : A -> B) l : is_nil (map g l) = is_nil l.
+Proof. destruct l; reflexivity. Qed.
+
+Lemma erase_norm_schema s : erase (norm_schema s) = norm_s (erase s).
+Proof.
+  unfold erase, norm_schema, norm_s. rewrite sj_filter_map.
+  assert (Hf : filter (fun x => s_keep (erase_ns x)) s = filter ns_keep s).
+  { apply filter_ext. intros [name n]. unfold s_keep, ns_keep, has_decls, erase_ns. cbn [fst snd sn_name sn_entities sn_enums sn_commons sn_actions].
+    rewrite !is_nil_map. reflexivity. }
+  rewrite Hf. unfold mapv. rewrite !map_map. apply map_ext. intros [name n].
+  unfold erase_ns, norm_s_ns, norm_ns. cbn [fst snd sn_name sn_entities sn_enums sn_commons sn_actions xs_annots xs_entities xs_enums xs_commons xs_actions].
+  f_equal. unfold mapv. rewrite !map_map. reflexivity.
+Qed.
+
+Lemma s_keep_false ns : s_keep ns = false ->
+  sn_name ns = [] /\ sn_entities ns = [] /\ sn_enums ns = [] /\ sn_commons ns = [] /\ sn_actions ns = [].
+Proof.
+  unfold s_keep. intros H. apply orb_false_iff in H. destruct H as [H1 H2]. apply negb_false_iff in H1, H2.
+  rewrite !andb_true_iff in H2.
+  destruct (sn_name ns), (sn_entities ns), (sn_enums ns), (sn_commons ns), (sn_actions ns); cbn in *; try tauto; try discriminate; intuition discriminate.
+Qed.
+
+Lemma existsb_nf (Q : s_ns -> bool) S :
+  (forall ns, Q (norm_s_ns ns) = Q ns) -> (forall ns, s_keep ns = false -> Q ns = false) -> existsb Q (norm_s S) = existsb Q S.
+Proof.
+  intros H1 H2. unfold norm_s. induction S as [|ns S IH]; [reflexivity|]. cbn [filter existsb].
+  destruct (s_keep ns) eqn:E; [cbn [map existsb]; rewrite H1, IH; reflexivity | rewrite IH, (H2 ns E); reflexivity].
+Qed.
+
+Lemma flat_map_nf {B} (F : s_ns -> list B) S :
+  (forall ns, F (norm_s_ns ns) = F ns) -> (forall ns, s_keep ns = false -> F ns = []) -> flat_map F (norm_s S) = flat_map F S.
+Proof.
+  intros H1 H2. unfold norm_s. induction S as [|ns S IH]; [reflexivity|]. cbn [filter flat_map].
+  destruct (s_keep ns) eqn:E; [cbn [map flat_map]; rewrite H1, IH; reflexivity | rewrite IH, (H2 ns E); reflexivity].
+Qed.
+
+Lemma flat_map_filter {A B} (p : A -> bool) (F : A -> list B) l : flat_map F (filter p l) = flat_map (fun x => if p x then F x else []) l.
+Proof. induction l as [|x l IH]; [reflexivity|]. cbn [filter flat_map]. destruct (p x); cbn [flat_map]; rewrite IH; reflexivity. Qed.
+
+Lemma existsb_filter {A} (p q : A -> bool) l : existsb q (filter p l) = existsb (fun x => p x && q x) l.
+Proof. induction l as [|x l IH]; [reflexivity|]. cbn [filter existsb]. destruct (p x); cbn [existsb andb]; rewrite IH; reflexivity. Qed.
+
+Lemma map_name_sort l : map se_name (map sort_parents l) = map se_name l.
+Proof. rewrite map_map. reflexivity. Qed.
+
+Lemma existsb_map {A B} (q : B -> bool) (g : A -> B) l : existsb q (map g l) = existsb (fun x => q (g x)) l.
+Proof. induction l as [|x l IH]; [reflexivity|]. cbn [map existsb]. rewrite IH. reflexivity. Qed.
+
+Lemma register_norm S : register (norm_s S) = register S.
+Proof.
+  unfold register.
+  rewrite (existsb_nf (fun ns => existsb (fun e => mem (se_name e) (sn_enums ns)) (sn_entities ns))).
+  2:{ intros ns. cbn [norm_s_ns sn_entities sn_enums]. rewrite existsb_map. reflexivity. }
+  2:{ intros ns E. destruct (s_keep_false ns E) as (_ & -> & _). reflexivity. }
+  destruct (existsb _ S); [reflexivity|]. f_equal. f_equal.
+  - apply flat_map_nf.
+    + intros ns. cbn [norm_s_ns sn_entities sn_name]. rewrite map_map. reflexivity.
+    + intros ns E. destruct (s_keep_false ns E) as (_ & -> & _). reflexivity.
+  - apply flat_map_nf; [reflexivity|]. intros ns E. destruct (s_keep_false ns E) as (_ & _ & -> & _). reflexivity.
+  - apply flat_map_nf; [reflexivity|]. intros ns E. destruct (s_keep_false ns E) as (_ & _ & _ & -> & _). reflexivity.
+Qed.
+
+Lemma shadowing_norm S : shadowing_ok (norm_s S) = shadowing_ok S.
+Proof.
+  unfold shadowing_ok. rewrite !flat_map_filter, !existsb_filter. f_equal.
+  assert (H1 : flat_map (fun x => if is_nil_str (sn_name x) then map se_name (sn_entities x) ++ sn_enums x ++ map fst (sn_commons x) else []) (norm_s S)
+             = flat_map (fun x => if is_nil_str (sn_name x) then map se_name (sn_entities x) ++ sn_enums x ++ map fst (sn_commons x) else []) S).
+  { apply flat_map_nf.
+    - intros ns. cbn [norm_s_ns sn_entities sn_name sn_enums sn_commons]. rewrite map_name_sort. reflexivity.
+    - intros ns E. destruct (s_keep_false ns E) as (_ & -> & -> & -> & _). destruct (is_nil_str (sn_name ns)); reflexivity. }
+  assert (H2 : flat_map (fun x => if is_nil_str (sn_name x) then map sac_name (sn_actions x) else []) (norm_s S)
+             = flat_map (fun x => if is_nil_str (sn_name x) then map sac_name (sn_actions x) else []) S).
+  { apply flat_map_nf; [reflexivity|].
+    intros ns E. destruct (s_keep_false ns E) as (_ & _ & _ & _ & ->). destruct (is_nil_str (sn_name ns)); reflexivity. }
+  rewrite H1, H2. apply existsb_nf.
+  - intros ns. cbn [norm_s_ns sn_entities sn_name sn_enums sn_commons sn_actions]. rewrite map_name_sort. reflexivity.
+  - intros ns E. destruct (s_keep_false ns E) as (-> & _). reflexivity.
+Qed.
+
+(* ---- resolve_schema with its local functions named ---- *)
+Local Notation rent := (str * (list str * option (list (str * (rty * bool))) * option rty))%type.
+Local Notation ract := (uid * (list uid * option (list str * list str * list (str * (rty * bool)))))%type.
+
+Definition r_eref (d : decls) (ns r : str) : rres str := match resolve_entity_ref d ns r with Some x => ROk x | None => RErr end.
+Definition r_rt (d : decls) (ns : str) (t : sty) : rres rty := resolve_type (resolve_fuel d t) d ns t.
+Definition r_ent_rest (d : decls) (ns : str) (e : s_entity) (ps : list str) : rres rent :=
+  rbind (match se_shape e with None => ROk None | Some fs => rbind (r_rt d ns (TyRec fs)) (fun r => match r with RRec x => ROk (Some x) | _ => RErr end) end) (fun sh =>
+  rbind (match se_tags e with None => ROk None | Some t => rbind (r_rt d ns t) (fun r => ROk (Some r)) end) (fun tg =>
+  ROk (qualify ns (se_name e), (ps, sh, tg)))).
+Definition r_ent (d : decls) (ns : str) (e : s_entity) : rres rent :=
+  rbind (all_ok (r_eref d ns) (se_parents e)) (r_ent_rest d ns e).
+Definition r_act (d : decls) (ns : str) (a : s_action) : rres ract :=
+  rbind (match sac_applies a with
+         | None => ROk None
+         | Some ap =>
+             rbind (all_ok (r_eref d ns) (sa_principals ap)) (fun pr =>
+             rbind (all_ok (r_eref d ns) (sa_resources ap)) (fun rr =>
+             rbind (match sa_context ap with
+                    | None => ROk []
+                    | Some t => rbind (r_rt d ns t) (fun r => match r with RRec x => ROk x | _ => RErr end)
+                    end) (fun cx => ROk (Some (pr, rr, cx)))))
+         end) (fun ap => ROk (action_uid ns a, (map (parent_uid ns) (sac_parents a), ap))).
+Definition r_fin (ce : list rent) (actions : list ract) : verdict :=
+  let uids := map fst actions in
+  let parents (u : uid) : list uid := match find (fun kv : ract => uid_eqb (fst kv) u) (rev actions) with Some kv => fst (snd kv) | None => [] end in
+  if existsb (fun a : ract => existsb (fun p => negb (existsb (uid_eqb p) uids)) (fst (snd a))) actions then VErr else
+  let fuel := (S (List.length actions) * S (List.length actions) + 2)%nat in
+  match fold_left (fun (st : option (bool * list (uid * nat))) (u : uid) =>
+                     match st with
+                     | None => None
+                     | Some (true, v) => Some (true, v)
+                     | Some (false, v) => visit fuel parents u v
+                     end) uids (Some (false, [])) with
+  | None => VFuel
+  | Some (true, _) => VErr
+  | Some (false, _) => VOk {| rs_entities := ce; rs_actions := actions |}
+  end.
+
+Lemma resolve_schema_eq S :
+  resolve_schema S =
+  match register S with
+  | None => VErr
+  | Some d =>
+      if negb (shadowing_ok S) then VErr else
+      if negb (cycle_free d) then VErr else
+      match all_ok (fun ns => all_ok (r_ent d (sn_name ns)) (sn_entities ns)) S, all_ok (fun ns => all_ok (r_act d (sn_name ns)) (sn_actions ns)) S with
+      | ROk es, ROk acts => r_fin (List.concat es) (List.concat acts)
+      | RFuel, _ | _, RFuel => VFuel
+      | _, _ => VErr
+      end
+  end.
+Proof. reflexivity. Qed.
+
+(* ---- relating two runs ---- *)
+Definition rrel {A} (R : A -> A -> Prop) (x y : rres A) : Prop :=
+  match x, y with ROk a, ROk b => R a b | RErr, RErr => True | RFuel, RFuel => True | _, _ => False end.
+
+Lemma rrel_trans {A} (R : A -> A -> Prop) x y z : (forall a b c, R a b -> R b c -> R a c) -> rrel R x y -> rrel R y z -> rrel R x z.
+Proof. intros HR. destruct x, y, z; cbn; try tauto. apply HR. Qed.
+
+Lemma all_ok_cons {A B} (f : A -> rres B) x l : all_ok f (x :: l) = rbind (f x) (fun y => rbind (all_ok f l) (fun ys => ROk (y :: ys))).
+Proof. reflexivity. Qed.
+
+Lemma all_ok_perm {A B} (f : A -> rres B) l l' : (forall x, f x <> RFuel) -> Permutation l l' -> rrel (@Permutation B) (all_ok f l) (all_ok f l').
+Proof.
+  intros Hf HP. induction HP as [|x l l' HP IH|x y l|l l' l'' HP1 IH1 HP2 IH2].
+  - cbn. apply perm_nil.
+  - rewrite !all_ok_cons. destruct (f x) eqn:Ex; cbn [rbind rrel]; [|exact I|exfalso; exact (Hf x Ex)].
+    destruct (all_ok f l), (all_ok f l'); cbn [rbind rrel] in *; try tauto. apply perm_skip. exact IH.
+  - rewrite !all_ok_cons. destruct (f x) eqn:Ex; [| |exfalso; exact (Hf x Ex)]; (destruct (f y) eqn:Ey; [| |exfalso; exact (Hf y Ey)]);
+      cbn [rbind rrel]; try exact I; destruct (all_ok f l); cbn [rbind rrel]; try exact I. apply perm_swap.
+  - eapply rrel_trans; [|exact IH1|exact IH2]. intros a b c. apply Permutation_trans.
+Qed.
+
+Lemma all_ok_rel {A B} (f f' : A -> rres B) (E : B -> B -> Prop) (g : A -> A) l :
+  (forall x, rrel E (f x) (f' (g x))) -> rrel (Forall2 E) (all_ok f l) (all_ok f' (map g l)).
+Proof.
+  intros H. induction l as [|x l IH]; [cbn; constructor|]. cbn [map]. rewrite !all_ok_cons.
+  specialize (H x). destruct (f x), (f' (g x)); cbn [rbind rrel] in *; try tauto.
+  destruct (all_ok f l), (all_ok f' (map g l)); cbn [rbind rrel] in *; try tauto. constructor; assumption.
+Qed.
+
+Lemma all_ok_nf {B} (f : s_ns -> rres (list B)) (E : B -> B -> Prop) S :
+  (forall ns, rrel (Forall2 E) (f ns) (f (norm_s_ns ns))) -> (forall ns, s_keep ns = false -> f ns = ROk []) ->
+  rrel (fun a b => Forall2 E (List.concat a) (List.concat b)) (all_ok f S) (all_ok f (norm_s S)).
+Proof.
+  intros H1 H2. unfold norm_s. induction S as [|ns S IH]; [cbn; constructor|]. cbn [filter]. rewrite all_ok_cons.
+  destruct (s_keep ns) eqn:Ek.
+  - cbn [map]. rewrite all_ok_cons. specialize (H1 ns). destruct (f ns), (f (norm_s_ns ns)); cbn [rbind rrel] in *; try tauto.
+    destruct (all_ok f S), (all_ok f (map norm_s_ns (filter s_keep S))); cbn [rbind rrel] in *; try tauto.
+    cbn [List.concat]. apply Forall2_app; assumption.
+  - rewrite (H2 ns Ek). cbn [rbind].
+    destruct (all_ok f S), (all_ok f (map norm_s_ns (filter s_keep S))); cbn [rbind rrel] in *; try tauto.
+Qed.
+
+(* same entities up to the order of the parents *)
+Definition ent_equiv (x y : rent) : Prop :=
+  fst x = fst y /\ Permutation (fst (fst (snd x))) (fst (fst (snd y))) /\ snd (fst (snd x)) = snd (fst (snd y)) /\ snd (snd x) = snd (snd y).
+Definition resolved_equiv (a b : resolved_summary) : Prop :=
+  Forall2 ent_equiv (rs_entities a) (rs_entities b) /\ rs_actions a = rs_actions b.
+
+Lemma r_eref_nofuel d ns x : r_eref d ns x <> RFuel.
+Proof. unfold r_eref. destruct (resolve_entity_ref d ns x); discriminate. Qed.
+
+Lemma r_ent_sort d ns e : rrel ent_equiv (r_ent d ns e) (r_ent d ns (sort_parents e)).
+Proof.
+  unfold r_ent. cbn [sort_parents se_parents].
+  pose proof (all_ok_perm (r_eref d ns) _ _ (r_eref_nofuel d ns) (sort_strs_perm (se_parents e))) as HP.
+  destruct (all_ok (r_eref d ns) (se_parents e)) as [ps| |], (all_ok (r_eref d ns) (sort_strs (se_parents e))) as [ps'| |];
+    cbn [rbind rrel] in *; try tauto.
+  unfold r_ent_rest. cbn [sort_parents se_shape se_tags se_name].
+  destruct (match se_shape e with None => ROk None | Some fs => _ end) as [sh| |]; cbn [rbind rrel]; try exact I.
+  destruct (match se_tags e with None => ROk None | Some t => _ end) as [tg| |]; cbn [rbind rrel]; try exact I.
+  unfold ent_equiv. cbn [fst snd]. auto.
+Qed.
+
+Lemma Forall2_eq {A} (l l' : list A) : Forall2 eq l l' -> l = l'.
+Proof. intros H. induction H as [|x y l l' Hxy _ IH]; [reflexivity|]. subst. reflexivity. Qed.
+
+Lemma rrel_refl {A} (R : A -> A -> Prop) x : (forall a, R a a) -> rrel R x x.
+Proof. intros H. destruct x; cbn; auto. Qed.
+
+Lemma Forall2_refl {A} (R : A -> A -> Prop) l : (forall a, R a a) -> Forall2 R l l.
+Proof. intros H. induction l; constructor; auto. Qed.
+
+Definition vrel (a b : verdict) : Prop :=
+  match a, b with VOk x, VOk y => resolved_equiv x y | VErr, VErr => True | VFuel, VFuel => True | _, _ => False end.
+
+Lemma resolve_norm_s S : vrel (resolve_schema S) (resolve_schema (norm_s S)).
+Proof.
+  rewrite !resolve_schema_eq, register_norm, shadowing_norm.
+  destruct (register S) as [d|]; [|exact I]. destruct (negb (shadowing_ok S)); [exact I|]. destruct (negb (cycle_free d)); [exact I|].
+  pose proof (all_ok_nf (fun ns => all_ok (r_ent d (sn_name ns)) (sn_entities ns)) ent_equiv S) as He.
+  pose proof (all_ok_nf (fun ns => all_ok (r_act d (sn_name ns)) (sn_actions ns)) eq S) as Ha.
+  assert (He' := He). clear He. assert (Ha' := Ha). clear Ha.
+  specialize (He' (fun ns => all_ok_rel (r_ent d (sn_name ns)) (r_ent d (sn_name ns)) ent_equiv sort_parents (sn_entities ns) (r_ent_sort d (sn_name ns)))).
+  specialize (Ha' (fun ns => rrel_refl _ _ (fun l => Forall2_refl eq l (@eq_refl _)))).
+  assert (He0 : forall ns, s_keep ns = false -> all_ok (r_ent d (sn_name ns)) (sn_entities ns) = ROk []).
+  { intros ns E. destruct (s_keep_false ns E) as (_ & -> & _). reflexivity. }
+  assert (Ha0 : forall ns, s_keep ns = false -> all_ok (r_act d (sn_name ns)) (sn_actions ns) = ROk []).
+  { intros ns E. destruct (s_keep_false ns E) as (_ & _ & _ & _ & ->). reflexivity. }
+  specialize (He' He0). specialize (Ha' Ha0).
+  destruct (all_ok (fun ns => all_ok (r_ent d (sn_name ns)) (sn_entities ns)) S) as [es| |],
+           (all_ok (fun ns => all_ok (r_ent d (sn_name ns)) (sn_entities ns)) (norm_s S)) as [es'| |]; cbn [rrel] in He'; try tauto;
+  destruct (all_ok (fun ns => all_ok (r_act d (sn_name ns)) (sn_actions ns)) S) as [acts| |],
+           (all_ok (fun ns => all_ok (r_act d (sn_name ns)) (sn_actions ns)) (norm_s S)) as [acts'| |]; cbn [rrel] in Ha'; try tauto; try exact I.
+  apply Forall2_eq in Ha'. rewrite <- Ha'. unfold r_fin.
+  destruct (existsb _ (List.concat acts)); [exact I|].
+  destruct (fold_left _ _ _) as [[[|] v]|]; try exact I.
+  split; [exact He'|reflexivity].
+Qed.
+
+Theorem resolve_norm : forall s, wf_schema s = true ->
+  match resolve_schema (erase s), resolve_schema (erase (norm_schema s)) with
+  | VOk a, VOk b => resolved_equiv a b
+  | VErr, VErr => True
+  | _, _ => False
+  end.
+Proof.
+  intros s _. rewrite erase_norm_schema. pose proof (resolve_norm_s (erase s)) as H.
+  pose proof (resolve_schema_terminates (erase s)) as T1. pose proof (resolve_schema_terminates (norm_s (erase s))) as T2.
+  destruct (resolve_schema (erase s)), (resolve_schema (norm_s (erase s))); cbn [vrel] in H; try tauto; congruence.
+Qed.
+
+(* ------------------------------------------------------------------------------------------ *)
+(* Examples: what norm_schema changes, and why each clause of wf_schema is there               *)
+(* ------------------------------------------------------------------------------------------ *)
+Definition ent0 : x_entity := {| xe_annots := []; xe_parents := []; xe_shape := None; xe_tags := None |}.
+Definition ns0 : x_ns := {| xs_annots := []; xs_entities := []; xs_enums := []; xs_commons := []; xs_actions := [] |}.
+
+(* parents come back sorted (duplicates kept); an empty bare namespace disappears *)
+Example ex_norm :
+  let s := [([], ns0); (k "N", {| xs_annots := []; xs_entities := [(k "A", {| xe_annots := []; xe_parents := [k "Z"; k "B"; k "Z"]; xe_shape := None; xe_tags := None |})];
+                                  xs_enums := []; xs_commons := []; xs_actions := [] |})] in
+  wf_schema s = true /\
+  dec_schema (enc_schema s) =
+  DOk [(k "N", {| xs_annots := []; xs_entities := [(k "A", {| xe_annots := []; xe_parents := [k "B"; k "Z"; k "Z"]; xe_shape := None; xe_tags := None |})];
+                  xs_enums := []; xs_commons := []; xs_actions := [] |})].
+Proof. split; vm_compute; reflexivity. Qed.
+
+(* an enumerated type without values, an empty record shape, empty applies-to lists survive *)
+Example ex_kept :
+  let s := [(k "N", {| xs_annots := [(k "a", [])]; xs_entities := [(k "A", {| xe_annots := []; xe_parents := []; xe_shape := Some []; xe_tags := Some (XRef []) |})];
+                       xs_enums := [(k "E", {| xn_annots := []; xn_values := [] |})]; xs_commons := [(k "C", {| xc_annots := []; xc_type := XExt [] |})];
+                       xs_actions := [(k "x", {| xac_annots := []; xac_parents := [([], k "y"); ([], k "x")];
+                                                 xac_applies := Some {| xa_principals := []; xa_resources := []; xa_context := None |} |})] |})] in
+  wf_schema s = true /\ dec_schema (enc_schema s) = DOk s.
+Proof. split; vm_compute; reflexivity. Qed.
+
+(* wf clause "no name is both an entity and an enum": the enum wins in the single JSON map *)
+Example ex_clash :
+  let s := [(k "N", {| xs_annots := []; xs_entities := [(k "A", ent0)]; xs_enums := [(k "A", {| xn_annots := []; xn_values := [k "v"] |})];
+                       xs_commons := []; xs_actions := [] |})] in
+  wf_schema s = false /\
+  dec_schema (enc_schema s) =
+  DOk [(k "N", {| xs_annots := []; xs_entities := []; xs_enums := [(k "A", {| xn_annots := []; xn_values := [k "v"] |})]; xs_commons := []; xs_actions := [] |})].
+Proof. split; vm_compute; reflexivity. Qed.
+
+(* wf clause "the bare namespace has no annotations" *)
+Example ex_bare_annots :
+  let s := [([], {| xs_annots := [(k "a", k "b")]; xs_entities := [(k "A", ent0)]; xs_enums := []; xs_commons := []; xs_actions := [] |})] in
+  wf_schema s = false /\
+  dec_schema (enc_schema s) = DOk [([], {| xs_annots := []; xs_entities := [(k "A", ent0)]; xs_enums := []; xs_commons := []; xs_actions := [] |})].
+Proof. split; vm_compute; reflexivity. Qed.
+
+(* wf clause "association lists are key-sorted": attributes (and every other map) come back in key order, a repeated key keeps its last binding *)
+Example ex_unsorted :
+  let s := [(k "N", {| xs_annots := []; xs_entities := []; xs_enums := [];
+                       xs_commons := [(k "C", {| xc_annots := []; xc_type := XRec [(k "b", (XLong, false, [])); (k "a", (XBool, true, [])); (k "b", (XString, false, []))] |})];
+                       xs_actions := [] |})] in
+  wf_schema s = false /\
+  dec_schema (enc_schema s) =
+  DOk [(k "N", {| xs_annots := []; xs_entities := []; xs_enums := [];
+                  xs_commons := [(k "C", {| xc_annots := []; xc_type := XRec [(k "a", (XBool, true, [])); (k "b", (XString, false, []))] |})];
+                  xs_actions := [] |})].
+Proof. split; vm_compute; reflexivity. Qed.
+
+Print Assumptions dec_enc_schema.
+Print Assumptions norm_idempotent.
+Print Assumptions norm_idempotent_gen.
+Print Assumptions second_roundtrip.
+Print Assumptions second_roundtrip_gen.
+Print Assumptions dec_enc_twice.
+Print Assumptions dec_schema_total.
+Print Assumptions resolve_norm_s.
+Print Assumptions resolve_norm.
